@@ -147,6 +147,12 @@ def evaluate(case, drv):
     got = canon_values(tr.to_numpy())
     if len(got) != n:
         return bad(f"{len(got)} rows out for {n} rows in")
+    if isinstance(tr, pl.Series) and tr.dtype.is_temporal():
+        # numpy reads the int64 minimum as NaT whether or not polars holds it as a null: ask polars itself
+        pl_null = tr.is_null().to_list()
+        for i, g in enumerate(got):
+            if g == "_" and not pl_null[i]:
+                return bad(dict(row=i, note="polars result holds a non-null sentinel timestamp where the value is null"), transform=got)
     # expected: lookup of the per-group result through the row's key
     lut = {canon_label(l): v for l, v in zip(per_group.index, canon_values(per_group.to_numpy()))}
     row_keys = []
